@@ -156,7 +156,7 @@ def replay(d):
 
 def check(run):
     run.level = "other"
-    run.deductive(PC.MODULES)
+    PC.deductive(run)
     rnd = random.Random(run.seed)
     # selection step: exhaustive over small tables of the three search conditions
     fails, cases = [], 0
